@@ -640,11 +640,14 @@ class DlmsConnection:
                 auth_key=self.global_authentication_key,
                 challenge=self.meter_to_client_challenge,
             )
-            return (
+            reply = (
                 only_auth_security_control.to_bytes()
                 + self.client_invocation_counter.to_bytes(4, "big")
                 + gmac_result
             )
+            # the counter is part of the nonce of the GMAC and must not be used again
+            self.client_invocation_counter += 1
+            return reply
         else:
             raise NotImplementedError(
                 f"No implementation for HSL: {self.authentication_method!r}"
